@@ -3,6 +3,7 @@ package main
 import (
 	"context"
 	"fmt"
+	"github.com/herohde/morlock/cmd/bernstein/bernstein"
 	"math/rand"
 	"strconv"
 	"strings"
@@ -62,6 +63,8 @@ func searchCfg(name string) (search.AlphaBeta, bool) {
 		return search.AlphaBeta{Explore: noUnderPromo, Eval: leaf}, true
 	case "nup-quiet":
 		return search.AlphaBeta{Explore: noUnderPromo, Eval: quiet}, true
+	case "bern-static": // the search the BERNSTEIN engine runs (plausible-move table at every node, its own evaluation)
+		return search.AlphaBeta{Explore: bernstein.PlausibleMoveTable{Limit: 7}.Explore, Eval: search.Leaf{Eval: bernstein.Eval{Factor: 8}}}, true
 	}
 	return search.AlphaBeta{}, false
 }
@@ -344,6 +347,17 @@ func genC03(o *Out, r *rand.Rand, thorough bool) {
 		d := pickDepth(r, b, thorough, strings.HasSuffix(cfg, "quiet"))
 		emit(cfg, start, moves, []string{fmt.Sprintf("s:%d:%s:0", d, fullWin)})
 		o.Count(fmt.Sprintf("depth:%d", d))
+	}
+	// the search the BERNSTEIN engine runs (node-dependent exploration, float evaluation): implementation vs model
+	bn := n / 4
+	for i := 0; i < bn; i++ {
+		start, moves, b := randomLine(r, 16)
+		if b.Position().Piece(board.White, board.King) == 0 || b.Position().Piece(board.Black, board.King) == 0 {
+			continue
+		}
+		d := 1 + r.Intn(3)
+		emit("bern-static~", start, moves, []string{fmt.Sprintf("s:%d:%s:0", d, fullWin)})
+		o.Count("cfg:bern-static")
 	}
 	dn := 12
 	if thorough {
